@@ -109,6 +109,30 @@ func (b *builder) body(code int) *mnode {
 		return b.list(x, y)
 	case 6:
 		return b.unary(b.unary(b.leaf(l1)))
+	case 7: // (l1 / T) l2 — a choice as the prefix of a sequence (list labels fixed, T symbolic)
+		x := b.leaf(l1)
+		t := b.leaf(0)
+		b.t.AddAlternate()
+		inner := &mnode{kind: 3, lab: tree.TypeAlternate, kids: []*mnode{x, t}}
+		y := b.leaf(l2)
+		b.t.AddSequence()
+		return &mnode{kind: 3, lab: tree.TypeSequence, kids: []*mnode{inner, y}}
+	case 8: // l1 T / l2 — a sequence as the first alternative
+		x := b.leaf(l1)
+		t := b.leaf(0)
+		b.t.AddSequence()
+		inner := &mnode{kind: 3, lab: tree.TypeSequence, kids: []*mnode{x, t}}
+		y := b.leaf(l2)
+		b.t.AddAlternate()
+		return &mnode{kind: 3, lab: tree.TypeAlternate, kids: []*mnode{inner, y}}
+	case 9: // l1 (T / l2) — a choice after the first element
+		x := b.leaf(l1)
+		t := b.leaf(0)
+		y := b.leaf(l2)
+		b.t.AddAlternate()
+		inner := &mnode{kind: 3, lab: tree.TypeAlternate, kids: []*mnode{t, y}}
+		b.t.AddSequence()
+		return &mnode{kind: 3, lab: tree.TypeSequence, kids: []*mnode{x, inner}}
 	}
 	panic("bad shape")
 }
